@@ -44,6 +44,9 @@ pub fn run_jobs_budget<R: Send, Fun: Fn(u64) -> R + Sync>(
                     if i >= n {
                         break;
                     }
+                    if std::env::var("VERIF_TRACE_IDX").is_ok() {
+                        eprintln!("JOB {i}");
+                    }
                     match catch_unwind(AssertUnwindSafe(|| f(i))) {
                         Ok(r) => out.lock().unwrap().push((i, r)),
                         Err(p) => {
